@@ -329,7 +329,7 @@ def write(name, text):
 
 if __name__ == "__main__":
     ch = []
-    from arms import gen_arms, gen_tokenizer_arms, gen_parser_steps, gen_event_traces, gen_eval_traces
-    for name, gen in (("Arms.lean", gen_arms), ("TokenizerArms.lean", gen_tokenizer_arms), ("ParserSteps.lean", gen_parser_steps), ("EventTraces.lean", gen_event_traces), ("EvalTraces.lean", gen_eval_traces), ("Tokenizer.lean", gen_tokenizer), ("Terms.lean", gen_terms), ("Sites.lean", gen_sites), ("ParserShape.lean", gen_parser), ("Grammar.lean", gen_grammar)):
+    from arms import gen_arms, gen_tokenizer_arms, gen_parser_steps, gen_event_traces, gen_eval_traces, gen_cli
+    for name, gen in (("Arms.lean", gen_arms), ("TokenizerArms.lean", gen_tokenizer_arms), ("ParserSteps.lean", gen_parser_steps), ("EventTraces.lean", gen_event_traces), ("EvalTraces.lean", gen_eval_traces), ("Cli.lean", gen_cli), ("Tokenizer.lean", gen_tokenizer), ("Terms.lean", gen_terms), ("Sites.lean", gen_sites), ("ParserShape.lean", gen_parser), ("Grammar.lean", gen_grammar)):
         if write(name, gen()): ch.append(name)
     print("extract: ok" + (" (rewrote " + ", ".join(ch) + ")" if ch else " (unchanged)"))
